@@ -1260,7 +1260,7 @@ func main() {
 	runner.Main(runner.Check{
 		Property: "C16",
 		Level:    "exploration",
-		Rule:     "mux case: prefix length in {1,4,8}, 0-3 routes registered before or between connections, 2-9 client connections whose bytes (prefix+tagged payload, or fewer bytes than the prefix) are written in seeded splits incl. inside the prefix and then closed, listeners with and without an acceptor (also started late), route listeners closed at seeded moments, the multiplexer stopped by context cancel or base Close at a seeded moment; ledger: delivered exactly once to the right listener with the right bytes, or closed; every Accept returned an error and Run returned at quiescence. mux-long-history: 1500 (thorough: up to 70000) connections one after the other on one multiplexer, most hanging up inside the prefix, every 97th complete: each short one closed, each complete one delivered with its payload. header case: 1-3 concurrent writers x 1-3 writes (empty first writes), 4 header strings, the first underlying write optionally parked; header-with-io-copy: 1-3 steps each a Write or an io.Copy into the header connection from a source with or without WriteTo, over an underlying connection with or without ReadFrom. Non-trivial: at least one connection delivered / any header case. Distinct: by step history.",
+		Rule:     "mux case: prefix length in {1,4,8}, 0-3 routes registered before or between connections, 2-9 client connections whose bytes (prefix+tagged payload, or fewer bytes than the prefix) are written in seeded splits incl. inside the prefix and then closed, listeners with and without an acceptor (also started late), route listeners closed at seeded moments, the multiplexer stopped by context cancel or base Close at a seeded moment; ledger: delivered exactly once to the right listener with the right bytes, or closed; every Accept returned an error and Run returned at quiescence. mux-long-history: 1500 (thorough: up to 70000) connections one after the other on one multiplexer, most hanging up inside the prefix, every 97th complete: each short one closed, each complete one delivered with its payload. header case: 1-3 concurrent writers x 1-3 writes (empty first writes), 4 header strings, the first underlying write optionally parked; header-with-io-copy: 1-3 steps each a Write or an io.Copy into the header connection from a source with or without WriteTo, over an underlying connection with or without ReadFrom. Non-trivial: at least one connection delivered / any header case. Distinct: by step history. (closed-route) the application closes a routed listener while the multiplexer runs: connections with that prefix then belong to the default listener with the prefix included, until the prefix is registered again; other routes are not affected.",
 		Assumptions: []string{
 			"clients always finish writing and close (a peer that never sends its prefix keeps a routing goroutine waiting by design)",
 			"a connection whose route was closed by the application at some point may be delivered to that route, to the default listener (with its prefix) or closed; a connection whose route was registered only after it arrived may go to either",
